@@ -1,4 +1,5 @@
 import Momo.Proof.ColumnsRows
+import Momo.Proof.TrEqMisc2Col
 /-!
 # C18 — Column lists give each column its own aligned slot and know only their columns
 
@@ -417,5 +418,57 @@ example : (run { L := 4 } cycOps).codeParam = 0 ∧ (run { L := 4 } cycOps).colu
 example : (run { L := 4 } [([⟨33, 4, 4, false⟩], .none), ([⟨49, 4, 4, false⟩], .none), ([⟨101, 4, 4, false⟩], .none),
     ([⟨50, 4, 4, false⟩], .none)]).codeParam = 4 := by
   decide +kernel
+
+/-! ### The code itself, not only the hand-written model (T1b)
+
+`Momo.Tr.*` are Lean definitions regenerated on every check by tools/translate.py from the *function bodies* in the
+current headers (area Misc: tools/trspecs/Misc.py → `Momo/Translated/Misc.lean`; C++ integer semantics explicit: every
+`size_t` `+ - * <<` reduced mod 2^64). Equivalences with the model: `Proof/TrEqMisc2Col.lean`. -/
+
+/-- **GetVertices for the code as translated from DataColumn.h.** For `logVertexCount = L` with `4 ≤ L < 64` (the header
+asserts `L < 16`), any code width, any 64-bit column code and every code parameter the retry loop can reach, the
+translated `GetVertices` is the model's and returns two distinct vertices below `2^L`. -/
+theorem C18_vertices_translated (c : Cfg) (hL : Extracted.colLogVertexMin ≤ c.L) (hL64 : c.L < 64) (code param : Nat)
+    (hcode : code < 2 ^ 64) (hp : param ≤ Extracted.colMaxCodeParam) :
+    Tr.col_GetVertices c.L c.codeBytes code param = getVertices c code param ∧
+    (Tr.col_GetVertices c.L c.codeBytes code param).1 ≠ (Tr.col_GetVertices c.L c.codeBytes code param).2 ∧
+    (Tr.col_GetVertices c.L c.codeBytes code param).1 < 2 ^ c.L ∧ (Tr.col_GetVertices c.L c.codeBytes code param).2 < 2 ^ c.L := by
+  rw [TrEq.tr_getVertices c code param hL64 hcode]
+  exact ⟨rfl, C18_vertices c hL code param hp⟩
+
+/-- **`UIntMath<>::Ceil` as translated from Utility.h** (`value + mod` a `size_t`, `mod > 0`): the model's `ceil`, i.e. the
+least multiple of the alignment that is not below the offset — "an offset that is aligned for its type". -/
+theorem C18_ceil_translated (off al : Nat) (hal : 0 < al) (hw : off + al < 2 ^ 64) :
+    Tr.um_Ceil off al = ceil off al ∧ Tr.um_Ceil off al % al = 0 ∧ off ≤ Tr.um_Ceil off al ∧ Tr.um_Ceil off al < off + al := by
+  rw [TrEq.tr_um_ceil off al hal hw]
+  exact ⟨rfl, ceil_mod off al, le_ceil off al hal, ceil_lt off al hal⟩
+
+/-- **The layout step of `pvAddEdges` with the translated code.** One column of an `Add` call (model `newEdges`): the
+edge joins the translated `GetVertices` of its code with the value `offset = Ceil(offset, alignment)` as translated, and the
+running `offset` / `maxAlignment` advance by the translated `offset += size; maxAlignment = minmax(…).second` — as long as the
+row stays below 2^64 bytes. -/
+theorem C18_layout_step_translated (c : Cfg) (param : Nat) (it : Item) (its : List Item) (g : Adj) (off al : Nat)
+    (hL : c.L < 64) (hcode : it.code < 2 ^ 64) (hal : 0 < it.align) (hw : off + it.align + it.size < 2 ^ 64) :
+    newEdges c param (it :: its) g off al =
+      newEdges c param its
+        (addEdges g (Tr.col_GetVertices c.L c.codeBytes it.code param).1 (Tr.col_GetVertices c.L c.codeBytes it.code param).2
+          (Tr.col_addEdges_align it.align off))
+        (Tr.col_addEdges_advance it.size it.align (Tr.col_addEdges_align it.align off) al).1
+        (Tr.col_addEdges_advance it.size it.align (Tr.col_addEdges_align it.align off) al).2 :=
+  TrEq.newEdges_translated c param it its g off al hL hcode hal hw
+
+/-- **Looking a column up with the translated code**: `pvGetOffset` = translated sum (64-bit wrap) of the two addends at the
+translated vertices. Also the constants of the fill: root addend `1 << 63`, `maxColumnCount`, mutable-bit bytes. -/
+theorem C18_lookup_translated (c : Cfg) (param : Nat) (a : Array Nat) (code : Nat) (hL1 : 1 ≤ c.L) (hL : c.L < 64) (hcode : code < 2 ^ 64) :
+    getOffsetWith c param a code =
+      Tr.col_pvGetOffset_sum (a.getD (Tr.col_GetVertices c.L c.codeBytes code param).1 0)
+        (a.getD (Tr.col_GetVertices c.L c.codeBytes code param).2 0) ∧
+    Tr.col_rootAddend = H ∧ Tr.col_maxColumnCount c.L = c.maxColumns ∧
+    ∀ off, off + 7 < 2 ^ 64 → Tr.col_mutBytes off = mutBytes off :=
+  ⟨TrEq.getOffsetWith_translated c param a code hL hcode, TrEq.tr_rootAddend, TrEq.tr_maxColumnCount c hL1 (by omega),
+    fun off h => TrEq.tr_mutBytes off h⟩
+
+example : (Tr.col_GetVertices 4 8 33 0, Tr.col_GetVertices 4 8 49 0, Tr.col_GetVertices 4 8 50 0) = ((1, 2), (1, 3), (2, 3)) := by decide
+example : Tr.um_Ceil 13 8 = 16 ∧ Tr.col_addEdges_advance 4 8 16 2 = (20, 8) ∧ Tr.col_mutBytes 20 = 3 := by decide
 
 end Momo.Col
